@@ -124,8 +124,14 @@ NMEA_FIELD = st.one_of(st.just(""), st.sampled_from(["A", "N", "W", "1", "12", "
 @st.composite
 def nmea_items(draw):
     kind = draw(st.sampled_from(["corpus", "corpus", "corpus", "gen", "badck", "unknown", "mutfield",
-                                 "prop-odd", "padded", "huge"]))
+                                 "prop-odd", "padded", "huge", "lowerck"]))
     base = draw(st.sampled_from(corpus()["nmea"]))
+    if kind == "lowerck":
+        # the two checksum digits in lower case (some talkers do; whether the sentence
+        # is accepted is the sentence parser's call, not the reader's)
+        cands = [f for f in corpus()["nmea"] if f[-4:-2] != f[-4:-2].lower()] or [base]
+        f = draw(st.sampled_from(cands))
+        return item("nmea", f[:-4] + f[-4:-2].lower() + f[-2:], "lowerck")
     if kind == "prop-odd":
         # proprietary sentences whose message-id field is missing or very short
         body = draw(st.sampled_from(["PUBX", "PQTMSN", "PASHR,1,2", "PASHR", "PASHR,", "PTNL", "PUBX,00",
